@@ -161,6 +161,22 @@ def commitFault (rev : Bool) (regs : List Reg) (k : Nat) (fs0 : Files) : St :=
   let (fs1, fls, _) := preLoop regs 0 k fsT
   { files := rollbackLoop rev regs 0 fls fs1, committed := false }
 
+/-- `TxController.Rollback` as a whole: `err := t.tx.Rollback()` first — it reports an error when the
+SQL transaction is already finished, e.g. `sql.ErrTxDone` after a COMMIT statement that failed —
+and then every rollback closure runs *whatever `err` is*; `err` only becomes the returned error
+(second component). -/
+def rollbackCode (rev : Bool) (sqlRollbackFails : Bool) (regs : List Reg) (fls : List Flags) (fs : Files) :
+    Files × Bool :=
+  (rollbackLoop rev regs 0 fls fs, sqlRollbackFails)
+
+/-- The COMMIT statement itself fails (lost connection, full disk, transaction ended underneath):
+every pre-commit closure has run, `database/sql` has finished the transaction, `Commit` calls
+`Rollback`, whose `t.tx.Rollback()` now reports `sql.ErrTxDone`. -/
+def commitStmtFault (rev : Bool) (regs : List Reg) (fs0 : Files) : St :=
+  let fsT := registerAll regs 0 fs0
+  let (fs1, fls, _) := preLoop regs 0 regs.length fsT
+  { files := (rollbackCode rev true regs fls fs1).1, committed := false }
+
 /-- A successful `Commit`. -/
 def commitOk (regs : List Reg) (fs0 : Files) : St :=
   let fsT := registerAll regs 0 fs0
